@@ -8,9 +8,12 @@
   counters instead of arrays) to `Model/Pyx.lean`, the line-by-line twins to the SAME model as the Python
   routine. Combined with `Properties/GenRefine.lean` (Python source = model) and `Properties/C12.lean`
   (Pyx models = Python models / profile averages) this is
-      Cython source  =  Python source          (as Lean functions, for every input, over ℚ)
+      Cython source  =  Python source          (as Lean functions over ℚ, on the inputs named in each theorem:
+                                                non-empty / well-shaped arrays, index pairs the scans use,
+                                                functions ending at the same point, RI ∈ {0, 1})
   — what C12 states, up to the compilation of the `.pyx` files, which never happens here, and IEEE
-  effects (finding F12 is `NaN·0`, invisible over ℚ).
+  effects (finding F12 is `NaN·0`, invisible over ℚ). The declared C types of all locals and return values are
+  checked against the inferred Lean types by the translator (a `cdef int` that receives a double is rejected).
 -/
 import PySpikeVerif.Properties.GenRefine
 import PySpikeVerif.Proofs.GenRefine.PyxTau
